@@ -47,10 +47,43 @@ fn cfg(tier: Tier, index: u64) -> HistCfg {
             ..Default::default()
         },
         target_pct: 25,
+        prelude: Prelude::None,
+        phases: false,
+        special_keys: false,
+        default_table: false,
     };
     // every 40th case: hundreds of keys in a table of 1..4 buckets (chains beyond 256 entries)
     if index % 40 == 13 && !huge {
         make_dense(&mut c, tier == Tier::Thorough);
+    }
+    // rarely reached regions
+    c.phases = index % 10 == 4;
+    c.special_keys = index % 8 == 3;
+    if index % 50 == 21 {
+        // value file beyond 2 MiB (offset fields grow again)
+        c.prelude = Prelude::Inflate { val_bytes: 2_200_000, key_bytes: 0 };
+    } else if index % 200 == 33 {
+        // key file beyond 2 MiB
+        c.kts = vec![Kt::Bytes, Kt::String];
+        c.prelude = Prelude::Inflate { val_bytes: 0, key_bytes: 2_200_000 };
+    } else if index % 3000 == 77 && !huge {
+        // the default 16 Mi bucket table
+        c.default_table = true;
+        c.ops.n_ops = 1..=120;
+        c.bufs = BufProfile::Plain;
+    } else if index == 1005 || (tier == Tier::Thorough && index % 3000 == 5) {
+        // more than 65535 entries
+        c.prelude = Prelude::ManyEntries(70_000);
+        c.max_buckets = 65536;
+        c.allow_lt8 = false;
+        c.ops.val = ValProfile::Small;
+        c.bufs = BufProfile::Plain;
+    } else if index == 1009 || (tier == Tier::Thorough && index % 4000 == 9) {
+        // value file beyond 256 MiB (17 values of 16 MiB)
+        c.prelude = Prelude::Inflate { val_bytes: 272 * 1024 * 1024, key_bytes: 0 };
+        c.ops.n_ops = 1..=200;
+        c.ops.val = ValProfile::Mixed;
+        c.bufs = BufProfile::Plain;
     }
     c
 }
@@ -80,7 +113,7 @@ fn alphabet() -> (Vec<Key>, Vec<Op>) {
     let base: Vec<Key> = (0..3).map(|i| Key::P { len: 10, seed: 100 + i }).collect();
     let keys = target_keys(base, 8, &[3]);
     let mut ops = Vec::new();
-    for k in 0..3u16 {
+    for k in 0..3u32 {
         for len in [0u32, 14, 15] {
             ops.push(Op::Put {
                 k,
